@@ -523,6 +523,9 @@ thread_local! {
     static QUIET_PANICS: std::cell::Cell<bool> = const { std::cell::Cell::new(false) };
 }
 
+/// Panic payload used by schedulers to emulate killing an actor thread.
+pub struct KillSignal;
+
 /// Installs a panic hook that records the location and message per thread.
 pub fn install_panic_hook() {
     let default = std::panic::take_hook();
@@ -535,11 +538,14 @@ pub fn install_panic_hook() {
             (*s).to_owned()
         } else if let Some(s) = info.payload().downcast_ref::<String>() {
             s.clone()
+        } else if info.payload().downcast_ref::<KillSignal>().is_some() {
+            "<kill>".to_owned()
         } else {
             "<non-string panic payload>".to_owned()
         };
+        let is_kill = message == "<kill>";
         LAST_PANIC.with(|p| *p.borrow_mut() = Some((location, message)));
-        if !QUIET_PANICS.with(|q| q.get()) {
+        if !is_kill && !QUIET_PANICS.with(|q| q.get()) {
             default(info);
         }
     }));
